@@ -57,13 +57,19 @@ is *proved* from those definitions in `Lemmas/Map32FL.lean` (`alloc_spec`, `allo
 `freeRun_spec`, `freeRun_eq_strong`), so there is no assumption structure and no axiom.  That the run-level
 map is what the bit-level `freelist.rs` table does is C26's refinement and the exact differential.
 
-## Not proved here
+## Exactness of a failed allocation (the oracle's `map32:alloc-fails`)
 
-* The oracle's extra check `map32:alloc-fails` (a `0` result implies that no `k` consecutive
-  unallocated chunks exist).  At the level of the region map it is `alloc_none_iff` (alloc fails iff no
-  free run has `k` units) and `freeRun_eq_strong` (free coalesces with every free neighbour); lifting it
-  to chunks needs two more invariant fields (the runs cover `[lo, hi)`; no two free runs are adjacent).
-  It is not one of the four invariants of C29.
+`InvX` = `Inv` + the runs cover `[lo, hi)` + no two free runs are adjacent (`FLFull`,
+`alloc_full` / `freeRun_full` in `Lemmas/Map32FL.lean`) + every allocated run meeting the range is a
+region; `invX_init`, `invX_allocate`, `invX_free`, `invX_freeAll`, `history_invX`.
+`alloc_fails_exact` / `history_alloc_fails_exact`: when `allocate_contiguous_chunks(k)` returns `0`
+there is no window of `k` consecutive unallocated chunks in the range.
+
+## Outside this file
+
+* The model's `free_all_chunks` loops are fuel-bounded (4096 each), the code's are not: the history
+  theorems ask for lists of at most 4097 regions.
+* That the run-level region map is what the bit-level table of `freelist.rs` does: C26 + differential.
 -/
 namespace Mmtk.Map32
 
@@ -997,6 +1003,198 @@ theorem history_walk {M first last : Nat} (h1 : 0 < first) (h2 : first ≤ last)
   exact walk_linked l 0 fuel (hI.links_exact.2.2.1 l hl)
     (fun m => hI.zero_not_mem (List.mem_flatten.2 ⟨l, hl, m⟩)) hf
 
+/-! ### Exactness of a failed allocation (the oracle's `map32:alloc-fails` check) -/
+
+/-- The extended invariant: `Inv`, the runs of the region map cover `[lo, hi)`, no two free runs
+are adjacent (free always coalesces), and every allocated run that meets `[lo, hi)` is a region. -/
+structure InvX (lo hi : Nat) (g : G) (st : St) : Prop where
+  inv : Inv lo hi g st
+  full : FLFull lo hi st.fl
+  run_reg : ∀ r ∈ st.fl.runs, r.free = false → r.start + r.size ≤ lo ∨ hi ≤ r.start ∨
+    ∃ reg ∈ g.regions, reg.start = r.start ∧ reg.size = r.size
+
+theorem invX_init {M first last : Nat} (h1 : 0 < first) (h2 : first ≤ last) (h3 : last < M) :
+    InvX first (last + 1) {} (finalize M first last) := by
+  obtain ⟨hinv, honly, hF⟩ := finalize_fl h1 h2 h3
+  refine ⟨inv_init h1 h2 h3, ⟨?_, ?_⟩, ?_⟩
+  · intro x hx1 hx2
+    exact ⟨_, hF, hx1, by dsimp only; omega⟩
+  · intro a ha b hb haf hbf
+    rw [honly a ha haf, honly b hb hbf]; dsimp only; omega
+  · intro r hr hrf
+    rcases hinv.eq_or_disj hr hF with e | d
+    · rw [e] at hrf; cases hrf
+    · unfold Disj at d; dsimp only at d
+      rcases d with d | d
+      · exact Or.inl d
+      · exact Or.inr (Or.inl (by omega))
+
+theorem invX_free {lo hi : Nat} {g : G} {st : St} (hX : InvX lo hi g st) {r : Reg} (hr : r ∈ g.regions)
+    {debug : Bool} {st' : St} {n : Nat} (h : freeNoLock debug st r.start = some (st', n)) :
+    InvX lo hi (g.free r.start) st' := by
+  have hI := hX.inv
+  have hrun := hI.reg_run r hr
+  obtain ⟨_, hrlo, hrhi⟩ := hI.regions_disjoint.2 r hr
+  obtain ⟨_, _, hflmem⟩ := freeRun_spec hI.fl hrun hrlo hrhi
+  have hfl := freeNoLock_fl debug st st' r.start n h
+  refine ⟨(inv_free hI hr h).2, hfl ▸ freeRun_full hI.fl hX.full hrun, ?_⟩
+  intro r' hr' hrf'
+  rw [hfl] at hr'
+  obtain ⟨hr0, hne⟩ := (hflmem r' hrf').1 hr'
+  rcases hX.run_reg r' hr0 hrf' with o | o | ⟨reg, hreg, hs, hz⟩
+  · exact Or.inl o
+  · exact Or.inr (Or.inl o)
+  · refine Or.inr (Or.inr ⟨reg, ?_, hs, hz⟩)
+    rw [G.free_regions, List.mem_filter]
+    exact ⟨hreg, by simpa [hs] using hne⟩
+
+theorem invX_allocate {lo hi : Nat} {g : G} {st : St} (hX : InvX lo hi g st) {debug : Bool}
+    {d k head : Nat} {st' : St} {c : Nat} (hk : 1 ≤ k)
+    (hhead : head = 0 ∨ ∃ l ∈ g.lists, l.head? = some head)
+    (h : allocate debug st d k head = (st', .val c)) : InvX lo hi (g.alloc d k head c) st' := by
+  have hI := hX.inv
+  have hI' := inv_allocate hI hk hhead h
+  rcases allocate_val debug st st' d k head c h with ⟨_, rfl, rfl⟩ | hsome
+  · unfold G.alloc; rw [if_pos rfl]; exact hX
+  obtain ⟨s, hfree, hks, _, hflmem⟩ := alloc_spec hI.fl hk hsome
+  obtain ⟨hclo, _⟩ := hI.fl.free_in _ hfree rfl
+  dsimp only at hclo
+  have hlo := hI.lo_pos
+  have hc : c ≠ 0 := by omega
+  obtain ⟨_, hfl, _⟩ := allocate_partial debug st st' d k head c h hc
+  have hg : g.alloc d k head c = { regions := ⟨c, k, d⟩ :: g.regions, lists := pushList c head g.lists } := by
+    unfold G.alloc; rw [if_neg hc]
+  refine ⟨hI', hfl ▸ alloc_full hI.fl hX.full hk hsome, ?_⟩
+  intro r' hr' hrf'
+  rw [hfl] at hr'
+  rw [hg]
+  rcases (hflmem r').1 hr' with ⟨hr0, _⟩ | rfl | ⟨_, rfl⟩
+  · rcases hX.run_reg r' hr0 hrf' with o | o | ⟨reg, hreg, hs, hz⟩
+    · exact Or.inl o
+    · exact Or.inr (Or.inl o)
+    · exact Or.inr (Or.inr ⟨reg, List.mem_cons_of_mem _ hreg, hs, hz⟩)
+  · exact Or.inr (Or.inr ⟨⟨c, k, d⟩, List.mem_cons_self .., rfl, rfl⟩)
+  · cases hrf'
+
+theorem invX_freeStable (lo hi : Nat) (debug : Bool) : FreeStable lo hi debug (InvX lo hi) :=
+  ⟨fun h => h.inv, fun h hr hf => invX_free h hr hf⟩
+
+theorem invX_freeAll {lo hi : Nat} {g : G} {st : St} (hX : InvX lo hi g st) {debug : Bool} {c fuel : Nat}
+    (hc : c = 0 ∨ ∃ l ∈ g.lists, c ∈ l ∧ l.length ≤ fuel + 1) {st' : St}
+    (h : freeAll debug st c fuel = some st') : InvX lo hi (g.freeAll c) st' := by
+  obtain ⟨st'', h', hX'⟩ := freeAll_spec_gen (invX_freeStable lo hi debug) hX hc
+  rw [h] at h'
+  cases h'
+  exact hX'
+
+theorem invX_step {lo hi : Nat} {g : G} {st : St} (hX : InvX lo hi g st) {debug : Bool} {op : Op}
+    (hpre : Pre g op) {g' : G} {st' : St} (h : step debug g st op = some (g', st')) : InvX lo hi g' st' := by
+  cases op with
+  | alloc d k head =>
+    simp only [step] at h
+    split at h
+    · rename_i st'' c heq
+      simp only [Option.some.injEq, Prod.mk.injEq] at h
+      obtain ⟨rfl, rfl⟩ := h
+      exact invX_allocate hX hpre.1 hpre.2 heq
+    · cases h
+  | free c =>
+    obtain ⟨r, hr, rfl⟩ := hpre
+    simp only [step] at h
+    split at h
+    · rename_i st'' n heq
+      simp only [Option.some.injEq, Prod.mk.injEq] at h
+      obtain ⟨rfl, rfl⟩ := h
+      exact invX_free hX hr heq
+    · cases h
+  | freeAll c =>
+    simp only [step] at h
+    split at h
+    · rename_i st'' heq
+      simp only [Option.some.injEq, Prod.mk.injEq] at h
+      obtain ⟨rfl, rfl⟩ := h
+      exact invX_freeAll hX hpre heq
+    · cases h
+
+theorem history_invX {lo hi : Nat} {debug : Bool} : ∀ (ops : List Op) {g : G} {st : St}, InvX lo hi g st →
+    Valid debug g st ops → ∀ {g' : G} {st' : St}, run debug g st ops = some (g', st') → InvX lo hi g' st'
+  | [], g, st, hX, _, g', st', h => by
+    simp only [run, Option.some.injEq, Prod.mk.injEq] at h
+    obtain ⟨rfl, rfl⟩ := h
+    exact hX
+  | op :: ops, g, st, hX, hv, g', st', h => by
+    obtain ⟨hpre, hrest⟩ := hv
+    obtain ⟨g1, st1, hs⟩ := step_isSome hX.inv debug hpre
+    rw [hs] at hrest
+    rw [run, hs] at h
+    exact history_invX ops (invX_step hX hpre hs) hrest h
+
+/-- `k` consecutive chunks of `[lo, hi)` none of which is allocated lie in one free run. -/
+theorem InvX.free_span {lo hi : Nat} {g : G} {st : St} (hX : InvX lo hi g st) {a : Nat} (hlo : lo ≤ a) :
+    ∀ j, 1 ≤ j → a + j ≤ hi →
+      (∀ x, a ≤ x → x < a + j → ∀ reg ∈ g.regions, ¬ (reg.start ≤ x ∧ x < reg.start + reg.size)) →
+      ∃ r ∈ st.fl.runs, r.free = true ∧ r.start ≤ a ∧ a + j ≤ r.start + r.size := by
+  -- the run that covers an unallocated chunk of the range is free
+  have hfreeAt : ∀ x, lo ≤ x → x < hi →
+      (∀ reg ∈ g.regions, ¬ (reg.start ≤ x ∧ x < reg.start + reg.size)) →
+      ∃ r ∈ st.fl.runs, r.free = true ∧ r.start ≤ x ∧ x < r.start + r.size := by
+    intro x hx1 hx2 hun
+    obtain ⟨r, hr, hr1, hr2⟩ := hX.full.cover x hx1 hx2
+    refine ⟨r, hr, ?_, hr1, hr2⟩
+    cases hrf : r.free with
+    | true => rfl
+    | false =>
+      rcases hX.run_reg r hr hrf with o | o | ⟨reg, hreg, hs, hz⟩
+      · omega
+      · omega
+      · exact absurd ⟨by omega, by omega⟩ (hun reg hreg)
+  intro j
+  induction j with
+  | zero => intro h; omega
+  | succ j ih =>
+    intro _ hhi hun
+    by_cases hj : j = 0
+    · subst hj
+      obtain ⟨r, hr, hrf, hr1, hr2⟩ := hfreeAt a hlo (by omega) (hun a (Nat.le_refl _) (by omega))
+      exact ⟨r, hr, hrf, hr1, by omega⟩
+    · obtain ⟨r, hr, hrf, hr1, hr2⟩ := ih (by omega) (by omega) (fun x h1 h2 => hun x h1 (by omega))
+      by_cases hin : a + j < r.start + r.size
+      · exact ⟨r, hr, hrf, hr1, by omega⟩
+      · obtain ⟨r2, hr2m, hr2f, hr21, hr22⟩ := hfreeAt (a + j) (by omega) (by omega)
+          (hun (a + j) (by omega) (by omega))
+        rcases hX.inv.fl.eq_or_disj hr hr2m with e | dd
+        · subst e; omega
+        · unfold Disj at dd
+          exact absurd (by omega) (hX.full.maximal r hr r2 hr2m hrf hr2f)
+
+/-- **`allocate_contiguous_chunks` returns `0` only when it must**: after a `0` result there is no
+window of `k` consecutive chunks of the range that are all unallocated. -/
+theorem alloc_fails_exact {lo hi : Nat} {g : G} {st : St} (hX : InvX lo hi g st) {debug : Bool}
+    {d k head : Nat} {st' : St} (hk : 1 ≤ k) (h : allocate debug st d k head = (st', .val 0)) :
+    ¬ ∃ a, lo ≤ a ∧ a + k ≤ hi ∧
+      ∀ x, a ≤ x → x < a + k → ∀ reg ∈ g.regions, ¬ (reg.start ≤ x ∧ x < reg.start + reg.size) := by
+  rintro ⟨a, hlo, hhi, hun⟩
+  have hI := hX.inv
+  have hnone : (st.fl.alloc k).1 = none := by
+    rcases allocate_val debug st st' d k head 0 h with ⟨hn, _, _⟩ | hsome
+    · exact hn
+    · obtain ⟨s, hfree, _, _, _⟩ := alloc_spec hI.fl hk hsome
+      have := (hI.fl.free_in _ hfree rfl).1
+      have := hI.lo_pos
+      dsimp only at *; omega
+  obtain ⟨r, hr, hrf, hr1, hr2⟩ := hX.free_span hlo k hk hhi hun
+  have := (alloc_none_iff hI.fl).1 hnone r hr hrf
+  omega
+
+/-- The same from the finalised state, for every protocol-respecting history. -/
+theorem history_alloc_fails_exact {M first last : Nat} (h1 : 0 < first) (h2 : first ≤ last) (h3 : last < M)
+    {debug : Bool} {ops : List Op} (hv : Valid debug {} (finalize M first last) ops) {g : G} {st : St}
+    (hr : run debug {} (finalize M first last) ops = some (g, st))
+    {d k head : Nat} {st' : St} (hk : 1 ≤ k) (h : allocate debug st d k head = (st', .val 0)) :
+    ¬ ∃ a, first ≤ a ∧ a + k ≤ last + 1 ∧
+      ∀ x, a ≤ x → x < a + k → ∀ reg ∈ g.regions, ¬ (reg.start ≤ x ∧ x < reg.start + reg.size) :=
+  alloc_fails_exact (history_invX ops (invX_init h1 h2 h3) hv hr) hk h
+
 /-! ### The hypotheses are satisfiable: a concrete history -/
 
 instance instDecidablePre (g : G) : (op : Op) → Decidable (Pre g op)
@@ -1065,6 +1263,10 @@ example : ∃ g st, run true {} (finalize 12 2 9) exOps = some (g, st) ∧ Inv 2
   have : (run true {} (finalize 12 2 9) exOps).map (fun p => p.1.regions.length) = some 3 := by decide +kernel
   rw [h] at this
   simpa using this
+
+/-- `alloc_fails_exact`'s hypothesis occurs: the eighth operation of `exOps` (`alloc 4 9 0`) returns `0`. -/
+example : (run true {} (finalize 12 2 9) (exOps.take 7)).map (fun p => (allocate true p.2 4 9 0).2) =
+    some (.val 0) := by decide +kernel
 
 /-- The harness's instance (`maxChunks = 2^25`, chunks `100 ..= 131`) satisfies `inv_init`'s hypotheses. -/
 example : Inv 100 (131 + 1) {} (finalize (2 ^ 25) 100 131) :=
